@@ -277,6 +277,53 @@ func c06R1(c *Ctx) {
 	if !okRw {
 		c.bad("client/rewrite", c.pos(det.Pos()), "client mode no longer rewrites the trigger prefix")
 	}
+	// universal form: what is returned together with a trigger is, on every path, the rewritten chunk (client mode) or
+	// the relay-marked chunk (relay mode) — never the chunk as it came in
+	eachInstr(det, func(in ssa.Instruction) {
+		r, ok := in.(*ssa.Return)
+		if !ok || len(r.Results) != 2 || isNilConst(r.Results[1]) {
+			return
+		}
+		n, good := 0, true
+		why := ""
+		var marked func(v ssa.Value, depth int) bool
+		marked = func(v ssa.Value, depth int) bool {
+			any := false
+			for _, l := range origins(v, originOpts{}) {
+				any = true
+				call, idx := callOf(l.V)
+				if call == nil {
+					why = "a value that is neither the rewritten nor the relay-marked chunk (" + l.V.String() + ")"
+					return false
+				}
+				switch calleeID(&call.Call) {
+				case "bytes.ReplaceAll", "(*trzsz.trzszDetector).addRelaySuffix":
+					continue
+				}
+				// a helper of the package all of whose returns are marked chunks
+				g := call.Call.StaticCallee()
+				if g == nil || !c.inPkg(g) || len(g.Blocks) == 0 || depth >= 2 {
+					why = "the result of " + calleeID(&call.Call)
+					return false
+				}
+				okAll := true
+				eachInstr(g, func(x ssa.Instruction) {
+					if gr, isR := x.(*ssa.Return); isR && idx < len(gr.Results) && x.Block().Comment != "recover" {
+						if !marked(retVal(gr, idx), depth+1) {
+							okAll = false
+						}
+					}
+				})
+				if !okAll {
+					return false
+				}
+			}
+			return any
+		}
+		n = 1
+		good = marked(r.Results[0], 0)
+		c.check(good && n > 0, "detect/trigger-chunk-always-marked", c.ipos(r), "the chunk returned with a trigger is always the rewritten / relay-marked one", "the chunk returned with a trigger can be "+why+": a second wrapper further along reacts to the raw trigger")
+	})
 	// suffix tests in the detector
 	suffix := func(fn, want string) bool {
 		f := c.fn(fn)
